@@ -459,7 +459,11 @@ func checkMain(a []string) {
 	writeEvidence(id, tier, seed, spec, hs, results, agg, validated, nViolations, inconclusive, wall, kids)
 	fmt.Printf("%s %s: instances %d paths %d (completed %d, infeasible %d, panics %d) forks %d assertions %d queries sat/unsat/unknown %d/%d/%d solver %.1fs wall %.1fs\n",
 		id, tier, len(results), agg.paths, agg.completed, agg.infeasible, agg.panics, agg.forks, agg.asserts, agg.sat, agg.unsat, agg.unknown, agg.solverS, wall)
-	fmt.Printf("evidence: %s\n", filepath.Join(verifDir, "evidence", id+".json"))
+	if os.Getenv("GOSYM_REPO") != "" {
+		fmt.Printf("evidence: %s (tree %s)\n", filepath.Join(verifDir, "out", "evidence_other_tree", id+".json"), os.Getenv("GOSYM_REPO"))
+	} else {
+		fmt.Printf("evidence: %s\n", filepath.Join(verifDir, "evidence", id+".json"))
+	}
 	os.Exit(exit)
 }
 
@@ -766,6 +770,10 @@ func writeEvidence(id, tier string, seed int, spec *PropertySpec, hs []HarnessSp
 		},
 	}
 	dir := filepath.Join(verifDir, "evidence")
+	if os.Getenv("GOSYM_REPO") != "" {
+		// a run against some other tree (a seeded change) must not replace the evidence for /repo
+		dir = filepath.Join(verifDir, "out", "evidence_other_tree")
+	}
 	os.MkdirAll(dir, 0o755)
 	b, _ := json.MarshalIndent(ev, "", " ")
 	os.WriteFile(filepath.Join(dir, id+".json"), b, 0o644)
